@@ -89,6 +89,7 @@ fn run_ops(ops: &[TOp], with_oracle: bool, stats: &mut Stats, sig: &mut Fnv) -> 
                 let newv = &pend[pend_len..];
                 pend_len = pend.len();
                 let after = read_regs(&cpu);
+                trace_fold(((after.tcnt as u64) << 8) | after.tcsr as u64 | ((pend_len as u64) << 16));
                 if with_oracle {
                     let new_reqs = match ReqCount::from_vectors(newv) {
                         Some(r) => r,
